@@ -43,7 +43,7 @@ def status_of(v):
     return 1
 
 
-def verify_factory(ns):
+def verify_factory(ns, through_cli=False):
     def f(eng):
         import conda_content_trust.cli as CLI
         import conda_content_trust.authentication as A
@@ -82,7 +82,15 @@ def verify_factory(ns):
             args = types.SimpleNamespace(trusted_metadata_filename='trusted.json', untrusted_metadata_filename='untrusted.json')
             prints = []
             from pysym import models
-            out = run_call(it, CLI.cli_verify_metadata, [args])
+            if through_cli:
+                # the whole in-process path of the console script: cli(argv) -> argparse -> cli_verify_metadata
+                out = run_call(it, CLI.cli, [['verify-metadata', 'trusted.json', 'untrusted.json']])
+                if not is_ret(out) and isinstance(out[4], SystemExit):
+                    code = getattr(out[4], 'sym_args', out[4].args)
+                    code = code[0] if code else None
+                    out = ('ret', code)          # sys.exit(code) inside cli(): the status the process ends with
+            else:
+                out = run_call(it, CLI.cli_verify_metadata, [args])
             root = Frame(it, verify_factory, {}, None)
             m = path_model(eng)
             if m is None:
@@ -91,7 +99,7 @@ def verify_factory(ns):
             def mk(mm):
                 ut = mm.eval(ucont.tag, model_completion=True).as_long()
                 tt = mm.eval(tcont.tag, model_completion=True).as_long()
-                return dict(scenario='verify-metadata', ucont=['json', 'notjson', 'missing'][ut], tcont=['json', 'notjson', 'missing'][tt],
+                return dict(scenario='verify-metadata', through_cli=through_cli, ucont=['json', 'notjson', 'missing'][ut], tcont=['json', 'notjson', 'missing'][tt],
                             udoc=to_wire(conc(mm, udoc)), tdoc=to_wire(conc(mm, tdoc)), libresult=conc(mm, result))
             obs, reach = [], []
             status = status_of(out[1]) if is_ret(out) and not isinstance(out[1], Sym) else (None if is_ret(out) else 1)
@@ -281,10 +289,23 @@ def concrete(case):
                 oldout = sys.stdout
                 sys.stdout = buf
                 try:
-                    oc = CC.outcome_of(CLI.cli_verify_metadata, args)
+                    if case.get('through_cli'):
+                        olderr = sys.stderr
+                        sys.stderr = io.StringIO()
+                        try:
+                            oc = CC.outcome_of(CLI.cli, ['verify-metadata', paths['trusted.json'], paths['untrusted.json']])
+                        except SystemExit as se:
+                            oc = {'kind': 'ret', 'value': to_wire(se.code if isinstance(se.code, (int, type(None))) else 1)}
+                        finally:
+                            sys.stderr = olderr
+                    else:
+                        oc = CC.outcome_of(CLI.cli_verify_metadata, args)
                 finally:
                     sys.stdout = oldout
-            status = status_of(from_wire(oc['value'])) if oc['kind'] == 'ret' else 1
+            if oc['kind'] == 'exc' and oc.get('cls') == 'SystemExit':
+                status = status_of(oc.get('code')) if isinstance(oc.get('code'), (int, type(None))) else 1
+            else:
+                status = status_of(from_wire(oc['value'])) if oc['kind'] == 'ret' else 1
             udoc, tdoc = from_wire(case['udoc']), from_wire(case['tdoc'])
             probs = []
             accepted = bool(calls) and case['libresult'] == 'ret'
@@ -333,6 +354,7 @@ def judge(case, obs):
 
 def units(tier):
     return [Unit('verify-metadata', verify_factory('vm'), expect=('status 0', 'status non-zero', 'root-chain check', 'delegation check'), max_witnesses=200),
+            Unit('verify-metadata through cli()', verify_factory('vc', through_cli=True), expect=('status 0', 'status non-zero'), max_witnesses=120),
             Unit('entry points', entry_factory('ep'), expect=('console_script', 'package_main', 'cli_main'), max_witnesses=30),
             Unit('sign-artifacts status', c18.repodata_factory('c17s', via_cli=True, max_fault=0, A=1, B=0, wrong_kinds=False, meta_kinds=False), expect=('cli:signed', 'cli:aborted'), max_witnesses=60)]
 
